@@ -219,16 +219,22 @@ func checkC18(c *Ctx, r *Report) {
 			continue
 		}
 		for _, pair := range [][2]ssa.Value{{cmp.X, cmp.Y}, {cmp.Y, cmp.X}} {
-			ix, ok := pair[0].(*ssa.Index)
-			if !ok {
-				continue
+			// table element: (copy of the array)[i] as `range` produces it, or *(&table[i])
+			var g *ssa.Global
+			var idxV ssa.Value
+			var idxBlk *ssa.BasicBlock
+			if ix, ok := pair[0].(*ssa.Index); ok {
+				if ld, ok := ix.X.(*ssa.UnOp); ok {
+					g, _ = ld.X.(*ssa.Global)
+				}
+				idxV, idxBlk = ix.Index, ix.Block()
+			} else if ld, ok := pair[0].(*ssa.UnOp); ok && ld.Op == token.MUL {
+				if ia, ok := ld.X.(*ssa.IndexAddr); ok {
+					g, _ = ia.X.(*ssa.Global)
+					idxV, idxBlk = ia.Index, ia.Block()
+				}
 			}
-			ld, ok := ix.X.(*ssa.UnOp)
-			if !ok {
-				continue
-			}
-			g, ok := ld.X.(*ssa.Global)
-			if !ok || g.Name() != "supportedFunctionCodes" {
+			if g == nil || g.Name() != "supportedFunctionCodes" {
 				continue
 			}
 			other, isI := fr.intVal(pair[1])
@@ -237,7 +243,7 @@ func checkC18(c *Ctx, r *Report) {
 				continue
 			}
 			arr := g.Type().(*types.Pointer).Elem().Underlying().(*types.Array)
-			if okc, why := coversIndex(fr, ix.Index, ix.Block(), affConst(arr.Len()), b.Succs[0]); !okc {
+			if okc, why := coversIndex(fr, idxV, idxBlk, affConst(arr.Len()), b.Succs[0]); !okc {
 				scanWhy = "table scan: " + why
 				continue
 			}
@@ -245,10 +251,13 @@ func checkC18(c *Ctx, r *Report) {
 			succ := b.Succs[0]
 			if ret, ok := succ.Instrs[len(succ.Instrs)-1].(*ssa.Return); ok && len(ret.Results) == 2 && isNilConst(ret.Results[1]) {
 				scanOK = true
-				if ph, ok := ix.Index.(*ssa.BinOp); ok {
-					if p2, ok := ph.X.(*ssa.Phi); ok {
+				switch iv := idxV.(type) {
+				case *ssa.BinOp:
+					if p2, ok := iv.X.(*ssa.Phi); ok {
 						loopHdr = p2.Block()
 					}
+				case *ssa.Phi:
+					loopHdr = iv.Block()
 				}
 			} else {
 				scanWhy = "a matching table element does not lead to the accepting return"
